@@ -33,11 +33,13 @@ NAMINGS_IP = {
 }
 CHAINS = {  # chain -> (anchor or None, every chain certificate currently valid?)
     "direct": ("R", True), "inter": ("R", True), "wrong_ca": ("W", True),
+    "public_ca": ("P", True),  # a CA of the public bundle (certifi; the harness points certifi.where at a stand-in)
     "inter_missing": (None, True), "self_signed": (None, True), "inter_not_ca": (None, True),
     "inter_expired": ("R", False),
 }
 VALIDITY = {"valid": True, "expired": False, "not_yet": False}
-TRUSTS = {"ca_file": {"R"}, "ca_dir": {"R"}, "file_other": {"W"}, "file_and_dir": {"R", "W"}, "default": set()}
+# nothing configured = certifi's bundle is the configured trust; anything configured replaces it
+TRUSTS = {"ca_file": {"R"}, "ca_dir": {"R"}, "file_other": {"W"}, "file_and_dir": {"R", "W"}, "default": {"P"}}
 IDSRCS = ("server_sni", "client_sni", "address", "sni_empty")
 PEERS = ("tls", "garbage", "closes")
 PAYLOAD = b"GET /secret HTTP/1.1\r\nHost: x\r\nAuthorization: token\r\n\r\n"
@@ -88,6 +90,16 @@ def rows_for(tier):
                 if tier != "quick":
                     add(mkrow(chain=chain, validity=validity, trust=trust, idform="ip4"))
                     add(mkrow(chain=chain, validity=validity, trust=trust, path="eager"))
+    # 2b. a server whose CA is in the public bundle only, under every trust configuration
+    for trust in TRUSTS:
+        for ins in (False, True):
+            add(mkrow(chain="public_ca", trust=trust, insecure=ins))
+        add(mkrow(chain="public_ca", trust=trust, path="eager"))
+        if tier != "quick":
+            for validity in ("expired", "not_yet"):
+                add(mkrow(chain="public_ca", trust=trust, validity=validity))
+            add(mkrow(chain="public_ca", trust=trust, idform="ip4"))
+            add(mkrow(chain="public_ca", trust=trust, naming="san_other"))
     # 3. no identity to verify, and peers that do not complete TLS
     for ins in (False, True):
         for idform in ("dns", "ip4"):
@@ -116,7 +128,8 @@ def rows_for(tier):
 
 SEQ_ROWS = [mkrow(), mkrow(naming="san_other"), mkrow(insecure=True, naming="san_other"), mkrow(trust="default"),
             mkrow(idform="ip4", naming="ip_other"), mkrow(chain="wrong_ca", trust="file_other"),
-            mkrow(chain="wrong_ca"), mkrow(peer="closes")]
+            mkrow(chain="wrong_ca"), mkrow(peer="closes"), mkrow(chain="public_ca", trust="ca_dir"),
+            mkrow(chain="public_ca", trust="default")]
 
 # ------------------------------------------------------------------------------------------------------------------
 # the lab: certificates and trust stores (cryptography only)
@@ -134,6 +147,7 @@ class CertLab:
         m = self.m
         self.R = m.ca("root-R")
         self.W = m.ca("root-W")
+        self.P = m.ca("root-P")  # stands in for a public CA: the only certificate of "certifi's" bundle
         self.I = m.ca("inter-I", issuer=self.R)
         self.IE = m.ca("inter-IE", issuer=self.R, days_before=400, days_after=-30)
         self.L = m.ca("notca-L", issuer=self.R, is_ca=False, key_cert_sign=False)
@@ -145,7 +159,11 @@ class CertLab:
         d_empty = self._hashdir("dir_empty", [])
         self.trust = {"ca_file": (f_r, None), "ca_dir": (None, d_r), "file_other": (f_w, None),
                       "file_and_dir": (f_w, d_r), "default": (None, None)}
-        self.roots = {"R": self.R[0], "W": self.W[0]}
+        self.roots = {"R": self.R[0], "W": self.W[0], "P": self.P[0]}
+        import certifi
+
+        bundle = self._write("public_bundle.pem", tlslab.pem_cert(self.P[0]))
+        certifi.where = lambda: bundle  # net.tls calls certifi.where() when no CA file/dir is configured
 
     def _write(self, name, data: bytes) -> str:
         p = os.path.join(self.dir, name)
@@ -207,7 +225,7 @@ class CertLab:
             return self.files[key]
         cn, sans = self.names(naming, idform)
         db, da = {"valid": (1, 30), "expired": (60, -2), "not_yet": (-2, 30)}[validity]
-        issuer = {"direct": self.R, "inter": self.I, "inter_missing": self.I, "wrong_ca": self.W,
+        issuer = {"direct": self.R, "inter": self.I, "inter_missing": self.I, "wrong_ca": self.W, "public_ca": self.P,
                   "inter_not_ca": self.L, "inter_expired": self.IE, "self_signed": None}[chain]
         kl = "srv-" + "-".join(key)
         if issuer is None:
@@ -496,7 +514,7 @@ class Check(core.PropertyCheck):
     MON = "Mon_CertVerify"
     REQUIRED_WITNESSES = ("need_fail", "verified_ok", "insecure_bad_cert", "app_data", "refuse_untrusted",
                           "refuse_not_valid", "refuse_name_mismatch", "refuse_garbage", "refuse_closes", "path_lazy",
-                          "path_eager", "trust_ca_file", "trust_ca_dir", "trust_default", "trust_file_other",
+                          "path_eager", "trust_ca_file", "trust_ca_dir", "trust_default", "trust_file_other", "ok_public_ca",
                           "id_dns", "id_idn", "id_ip4", "id_ip6", "src_server_sni", "src_client_sni", "src_address",
                           "src_sni_empty", "ok_wild_ok", "ok_inter", "ok_san_case", "path_full")
     REQUIRED_ACTIONS = ("StartServer", "Flight", "Finish")
